@@ -138,7 +138,7 @@ func (e *keyEnv) checkCpc(i int, idx *hashIndex) {
 		return
 	}
 	if ok, _ := idx.put(hA, ident(tm, chain), i); !ok {
-		run.Violation("cpc-eip712-hash-collision:global", label, map[string]any{"message": tm, "chain_id": chain.String(), "hash": hex.EncodeToString(hA)})
+		viol(run, "cpc-eip712-hash-collision:global", label, map[string]any{"message": tm, "chain_id": chain.String(), "hash": hex.EncodeToString(hA)})
 	}
 	sig, err := ethcrypto.Sign(hA, acct.Key)
 	if err != nil {
@@ -156,14 +156,14 @@ func (e *keyEnv) checkCpc(i int, idx *hashIndex) {
 		s2 := append([]byte{}, sig...)
 		s2[64] += add
 		if ok, err := cpcVerify(acct.Addr, tm, s2, chain); !ok || err != nil {
-			run.Violation("cpc-eip712-signature-rejected-for-own-message", label, w(map[string]any{"v": s2[64], "error": fmt.Sprint(err)}))
+			viol(run, "cpc-eip712-signature-rejected-for-own-message", label, w(map[string]any{"v": s2[64], "error": fmt.Sprint(err)}))
 		}
 	}
 	run.Count("cpc.positive-verified", 2)
 	neg := func(class string, expected common.Address, m cpceip712.TypedMessage, s []byte, c *big.Int, extra map[string]any) {
 		ok, _ := cpcVerify(expected, m, s, c)
 		if ok {
-			run.Violation("cpc-eip712-signature-verifies-after-perturbation:"+class, label, w(extra))
+			viol(run, "cpc-eip712-signature-verifies-after-perturbation:"+class, label, w(extra))
 			return
 		}
 		run.Count("cpc.rejected:"+class, 1)
@@ -176,12 +176,12 @@ func (e *keyEnv) checkCpc(i int, idx *hashIndex) {
 		case err != nil:
 			run.Count("cpc.pert-hash-error:"+p.field, 1)
 		case bytes.Equal(hA, hB):
-			run.Violation("cpc-eip712-hash-collision:"+p.field, label, w(extra))
+			viol(run, "cpc-eip712-hash-collision:"+p.field, label, w(extra))
 		default:
 			run.Count("cpc.hash-differs:"+p.field, 1)
 			e.cpcCompared.Add(1)
 			if ok, _ := idx.put(hB, ident(p.tm, p.chain), i); !ok {
-				run.Violation("cpc-eip712-hash-collision:global", label, w(extra))
+				viol(run, "cpc-eip712-hash-collision:global", label, w(extra))
 			}
 		}
 		neg("field:"+p.field, p.deleg, p.tm, sig, p.chain, extra) // as the precompile calls it: expected = message.delegator
